@@ -1854,7 +1854,67 @@ def k_pwhash(repo):
     return out + "end DryocVerif.Gen.Pwhash\n"
 
 
-KERNELS = {"Pwhash": k_pwhash, "Curve": k_curve, "Protected": k_protected, "Core": k_core, "Argon2": k_argon2, "Utils": k_utils, "Poly1305": k_poly1305, "Blake2b": k_blake2b, "SipHash": k_siphash}
+def k_simdtext(repo):
+    """blake2b_simd.rs: everything AROUND the compression function (counter, init, update, finalize, hash, longhash, flags) must be the
+    software backend's text up to the representation of the chaining value (h[0..8] ↔ two 4-lane vectors a, b).  The C18 theorems
+    instantiate ONE buffering model with two compression functions; this kernel checks that premise on the source text.
+    Emitted: one boolean per function (normalised token streams equal after the documented substitutions)."""
+    soft = strip_tests(open(os.path.join(repo, "src/blake2b/blake2b_soft.rs")).read())
+    simd = strip_tests(open(os.path.join(repo, "src/blake2b/blake2b_simd.rs")).read())
+
+    def toks(text):
+        ts = [t for t in lex(text) if t[0] != "eof"]
+        # a trailing comma before a closing bracket is not significant
+        return [t for i, t in enumerate(ts) if not (t == ("op", ",") and i + 1 < len(ts) and ts[i + 1] in (("op", ")"), ("op", "]"), ("op", "}")))]
+
+    def norm_simd(body):
+        # the chaining value: `self.a[i]` ↦ `self.h[i]`, `self.b[i]` ↦ `self.h[4+i]`; the two vector arguments of compress ↦ one `h`
+        body = re.sub(r"self\s*\.\s*b\s*\[\s*(\d)\s*\]", lambda m: "self.h[%d]" % (4 + int(m.group(1))), body)
+        body = re.sub(r"self\s*\.\s*a\s*\[\s*(\d)\s*\]", lambda m: "self.h[%s]" % m.group(1), body)
+        body = re.sub(r"let\s+a\s*=\s*&mut\s+self\s*\.\s*a\s*;\s*let\s+b\s*=\s*&mut\s+self\s*\.\s*b\s*;", "let h = &mut self.h;", body)
+        body = re.sub(r"compress\s*\(\s*a\s*,\s*b\s*,", "compress(h,", body)
+        body = re.sub(r"compress\s*\(\s*&mut\s+self\s*\.\s*a\s*,\s*&mut\s+self\s*\.\s*b\s*,", "compress(&mut self.h,", body)
+        return body
+
+    def drop_wipes(body):
+        # statements that only wipe state after the result is out (irrelevant to the output)
+        for w in (r"self\s*\.\s*buf\s*\.\s*zeroize\s*\(\s*\)\s*;", r"self\s*\.\s*h\s*\.\s*zeroize\s*\(\s*\)\s*;",
+                  r"self\s*\.\s*a\s*=\s*Simd\s*::\s*splat\s*\(\s*0\s*\)\s*;", r"self\s*\.\s*b\s*=\s*Simd\s*::\s*splat\s*\(\s*0\s*\)\s*;"):
+            body = re.sub(w, "", body)
+        return body
+
+    def let_h_order(body):
+        # soft: `let h = …; let t = …; let f = …;`  simd: `let t…; let f…; let a…; let b…;` — order of these independent borrows is irrelevant
+        m = re.search(r"let\s+h\s*=\s*&mut\s+self\s*\.\s*h\s*;", body)
+        if m:
+            body = body[:m.start()] + body[m.end():]
+            body = re.sub(r"(let\s+f\s*=\s*&mut\s+self\s*\.\s*f\s*;)", r"\1 let h = &mut self.h;", body, count=1)
+        return body
+    out = header("src/blake2b/blake2b_simd.rs vs src/blake2b/blake2b_soft.rs", "SimdText")
+    rows = []
+    for fn in ("increment_counter", "init", "update", "finalize", "hash", "longhash", "set_lastnode", "is_lastblock", "set_lastblock"):
+        try:
+            pa, ra, ba = find_fn(soft, fn)
+            pb, rb, bb = find_fn(simd, fn)
+        except Unsupported:
+            rows.append((fn, False))
+            continue
+        a = toks(let_h_order(drop_wipes(ba)))
+        b = toks(let_h_order(drop_wipes(norm_simd(bb))))
+        rows.append((fn, a == b and toks(pa) == toks(pb) and (ra or "") .split() == (rb or "").split()))
+    # init_param / init0: the parameter block is xored word by word into IV, in order
+    _, _, ip = find_fn(simd, "init_param")
+    ranges = [(int(x), int(y)) for x, y in re.findall(r"load_u64_le\s*\(\s*&pslice\s*\[\s*(\d+)\s*\.\.\s*(\d+)\s*\]\s*\)", ip)]
+    a_first = re.search(r"state\s*\.\s*a\s*\^=", ip) and re.search(r"state\s*\.\s*b\s*\^=", ip) and ip.index("state.a") < ip.index("state.b")
+    rows.append(("init_param", ranges == [(8 * i, 8 * i + 8) for i in range(8)] and bool(a_first) and "state.init0()" in ip))
+    _, _, i0 = find_fn(simd, "init0")
+    rows.append(("init0", bool(re.search(r"self\s*\.\s*a\s*=\s*Simd\s*::\s*from_slice\s*\(\s*&IV\s*\[\s*\.\.\s*4\s*\]\s*\)", i0))
+                 and bool(re.search(r"self\s*\.\s*b\s*=\s*Simd\s*::\s*from_slice\s*\(\s*&IV\s*\[\s*4\s*\.\.\s*8\s*\]\s*\)", i0))))
+    out += "def same_as_software : List (String × Bool) := [%s]\n\n" % ", ".join('("%s", %s)' % (n, "true" if v else "false") for n, v in rows)
+    return out + "end DryocVerif.Gen.SimdText\n"
+
+
+KERNELS = {"SimdText": k_simdtext, "Pwhash": k_pwhash, "Curve": k_curve, "Protected": k_protected, "Core": k_core, "Argon2": k_argon2, "Utils": k_utils, "Poly1305": k_poly1305, "Blake2b": k_blake2b, "SipHash": k_siphash}
 
 
 def main(argv):
